@@ -213,6 +213,10 @@ def show(v):
         return [show(i) for i in v]
     if isinstance(v, dict):
         return {k: show(i) for k, i in v.items()}
+    if isinstance(v, complex):
+        return {"$complex": [v.real, v.imag]}
+    if type(v).__name__ == "Decimal":
+        return {"$decimal": str(v)}
     return repr(v)
 
 
@@ -220,6 +224,12 @@ def unshow(v):
     if isinstance(v, dict) and set(v) == {"$f"}:
         f = v["$f"]
         return float.fromhex(f) if "x" in f else float(f)
+    if isinstance(v, dict) and set(v) == {"$complex"}:
+        return complex(*v["$complex"])
+    if isinstance(v, dict) and set(v) == {"$decimal"}:
+        import decimal
+
+        return decimal.Decimal(v["$decimal"])
     if isinstance(v, list):
         return tuple(unshow(i) for i in v)
     if isinstance(v, dict):
